@@ -2636,3 +2636,80 @@ func ruleErrorsNotSpeculative(r *Run, rule string) {
 		r.check(unconditional == 0, rule, v.rel+".(CPU).Run:error-age", v.run.Pos(), "an error handed over by an execute unit is returned by Run in the very step, whatever the age of the instruction (%d sites): the error of an instruction on the wrong path of an unresolved older branch fails the run", unconditional)
 	}
 }
+
+// ruleInOrderStall (R04.20): in the variants whose execute unit consults the scoreboard itself
+// (MVP-4, MVP-5), the instruction is executed only when the scoreboard reports no pending
+// write of a register it READS: the test `if ctx.IsWriteDataHazard(<runner>.ReadRegisters()) {
+// …leave }` — positive, its body leaving the step without running the instruction — stands, in
+// its statement list, before everything that computes the read addresses or runs the
+// instruction.
+func ruleInOrderStall(r *Run, rule string) {
+	w := r.W
+	for _, v := range variants(w) {
+		if v.pkg == nil || !v.pipelined() {
+			continue
+		}
+		info := v.info
+		for _, f := range v.pkg.Syntax {
+			for _, d := range f.Decls {
+				fd, ok := d.(*ast.FuncDecl)
+				if !ok || fd.Body == nil {
+					continue
+				}
+				// does the function consult the classifier at all (anywhere, any polarity)?
+				consults := false
+				ast.Inspect(fd.Body, func(m ast.Node) bool {
+					if call, ok := m.(*ast.CallExpr); ok {
+						if fn, ok := typeutil.Callee(info, call).(*types.Func); ok && fn.Name() == "IsWriteDataHazard" {
+							consults = true
+						}
+					}
+					return true
+				})
+				if !consults {
+					continue
+				}
+				// the well-formed stall in a statement list, and what follows it
+				good := false
+				var walk func(list []ast.Stmt)
+				walk = func(list []ast.Stmt) {
+					stalled := false
+					for _, st := range list {
+						if is, ok := st.(*ast.IfStmt); ok {
+							if call, ok := ast.Unparen(is.Cond).(*ast.CallExpr); ok && is.Else == nil {
+								if fn, ok := typeutil.Callee(info, call).(*types.Func); ok && fn.Name() == "IsWriteDataHazard" && len(call.Args) == 1 {
+									readsArg := false
+									if ac, ok := ast.Unparen(call.Args[0]).(*ast.CallExpr); ok {
+										if as, ok := ac.Fun.(*ast.SelectorExpr); ok && as.Sel.Name == "ReadRegisters" {
+											readsArg = true
+										}
+									}
+									runsInside := w.reaches(info, is.Body, func(fn *types.Func) bool {
+										return fn.Name() == "Run" && fn.Pkg() != nil && fn.Pkg().Path() == modPath+"/risc"
+									})
+									if readsArg && terminates(is.Body.List) && !runsInside {
+										stalled = true
+										continue
+									}
+								}
+							}
+						}
+						// anything that runs the instruction or computes its addresses
+						runs := w.reaches(info, st, func(fn *types.Func) bool {
+							return (fn.Name() == "Run" || fn.Name() == "MemoryRead") && fn.Pkg() != nil && fn.Pkg().Path() == modPath+"/risc"
+						})
+						if runs && stalled {
+							good = true
+						}
+						if runs && !stalled {
+							// the instruction is reached without the stall in this list: only acceptable in a list that is
+							// itself behind a stall (the resumption of a pending memory read)
+						}
+					}
+				}
+				walk(fd.Body.List)
+				r.check(good, rule, fmt.Sprintf("%s.%s:stall-on-pending-write", v.rel, declName(fd)), fd.Pos(), "the execute unit leaves the step while a register the instruction reads has a pending write (positive test on ReadRegisters(), before the instruction's addresses are computed and before it runs)")
+			}
+		}
+	}
+}
